@@ -448,6 +448,7 @@ class IntTr:
         self.options = fenv.get("options", [])
         self.retypes = fenv.get("retypes", {})   # name -> further types a straight-line rebinding may switch the variable to
         self.known_names = {}                    # translated function name -> parameter names (keyword / *args calls)
+        self.known_defaults = {}                 # translated function name -> {parameter name: default value node}
         self.guards = []                    # side conditions (index in range, divisor non-zero) of the statement being translated
         self.loops = []                     # stack of loop-carried variable lists (innermost last)
 
@@ -714,7 +715,8 @@ class IntTr:
             t, ty = self.expr(e.value, cur)
             table = {("nda", "ndim"): ("nd_ndim", "int"), ("nda", "size"): ("nd_size", "int"), ("nda", "shape"): ("nd_shape", "vec"),
                      ("spt", "nnz"): ("spt_nnz", "int"), ("spt", "subs"): ("spt_subs", "mat"), ("spt", "shape"): ("spt_shape", "vec"),
-                     ("kt", "weights"): ("kt_weights", "vec"),
+                     ("kt", "weights"): ("kt_weights", "vec"), ("spt", "ndims"): ("spt_ndims", "int"),
+                     ("kt", "ndims"): ("kt_ndims", "int"), ("kt", "ncomponents"): ("kt_ncomponents", "int"),
                      ("slice", "start"): ("sl_start", "optint"), ("slice", "stop"): ("sl_stop", "optint"),
                      ("slice", "step"): ("sl_step", "optint"), ("kt", "factor_matrices"): ("kt_factors", "matlist")}
             if (ty, e.attr) in table:
@@ -723,6 +725,8 @@ class IntTr:
             if ty in ("mat", "vec", "bvec") and e.attr == "size":
                 return None
             fail(e, f"attribute .{e.attr} of a value of type {ty}")
+        if isinstance(e, ast.List) and not e.elts:
+            return "[]", "nil"
         if isinstance(e, ast.List) and e.elts:
             parts = [self.expr(x, cur) for x in e.elts]
             if any(ty != "int" for _, ty in parts):
@@ -736,6 +740,16 @@ class IntTr:
                 fail(e, "chained comparison")       # the middle operand is evaluated once: only names / literals
             sym = {ast.Lt: "<?", ast.LtE: "<=?"}
             return f"(({a} {sym[type(e.ops[0])]} {b}) && ({b} {sym[type(e.ops[1])]} {c}))", "bool"
+        if isinstance(e, ast.Compare) and len(e.ops) == 1 and isinstance(e.ops[0], (ast.In, ast.NotIn)) \
+                and isinstance(e.comparators[0], ast.Call) and isinstance(e.comparators[0].func, ast.Name) \
+                and e.comparators[0].func.id == "range" and not e.comparators[0].keywords and len(e.comparators[0].args) in (1, 2):
+            x, tx = self.expr(e.left, cur)
+            bs = [self.expr(b, cur) for b in e.comparators[0].args]
+            if tx != "int" or any(t != "int" for _, t in bs) or not isinstance(e.left, (ast.Name, ast.Constant)):
+                fail(e, "membership in a range")
+            lo, hi = ("0", bs[0][0]) if len(bs) == 1 else (bs[0][0], bs[1][0])
+            t_ = f"(({lo} <=? {x}) && ({x} <? {hi}))"
+            return (t_ if isinstance(e.ops[0], ast.In) else f"(negb {t_})"), "bool"
         if isinstance(e, ast.Compare) and len(e.ops) == 1:
             op, rhs = e.ops[0], e.comparators[0]
             if isinstance(op, ast.Eq) and ast.dump(rhs) == dump("slice(None, None, None)"):
@@ -912,6 +926,9 @@ class IntTr:
                     if k_ not in pn:
                         fail(e, "keyword of a known call")
                     given[pn.index(k_)] = v_
+                for i_, pname in enumerate(pn):      # parameters left out take the default written in the callee's signature
+                    if i_ not in given and pname in self.known_defaults.get(fname, {}):
+                        given[i_] = self.known_defaults[fname][pname]
                 if sorted(given) != list(range(len(ptys))):
                     fail(e, "known call: every parameter must be given")
                 ats = []
@@ -951,7 +968,7 @@ class IntTr:
             return f"(ndb_all {t})", "bool"
         if isinstance(f, ast.Attribute) and f.attr == "copy" and not e.args and not kw:
             t, ty = self.expr(f.value, cur)
-            if ty == "kt":
+            if ty in ("kt", "matlist"):
                 return t, ty
             return None
         if isinstance(f, ast.Attribute) and isinstance(f.value, ast.Name) and f.value.id == "np" and "np" not in cur:
@@ -969,6 +986,33 @@ class IntTr:
                 if ty == "nda":
                     return t, "nda"
                 return None
+            if ast.dump(e) == dump("np.empty(shape=(1, 0), dtype=int)"):
+                return "[[]]", "mat"
+            if fn == "zeros" and not e.args and set(kw) == {"shape"} and isinstance(kw["shape"], ast.Tuple) and len(kw["shape"].elts) == 2:
+                a, ta = self.expr(kw["shape"].elts[0], cur)
+                b, tb = self.expr(kw["shape"].elts[1], cur)
+                if ta != "int" or tb != "int":
+                    fail(e, "np.zeros(shape=(a, b))")
+                self.guard(f"(np_zeros2_ok {a} {b})")
+                return f"(np_zeros2 {a} {b})", "mat"
+            if fn == "ones" and len(e.args) == 1 and not kw and isinstance(e.args[0], ast.Tuple) and len(e.args[0].elts) == 2 \
+                    and ast.dump(e.args[0].elts[1]) == dump("1"):
+                a, ta = self.expr(e.args[0].elts[0], cur)
+                if ta != "int":
+                    fail(e, "np.ones((n, 1))")
+                self.guard(f"(0 <=? {a})")
+                return f"(np_ones_col {a})", "mat"
+            if fn == "expand_dims" and len(e.args) == 1 and set(kw) == {"axis"} and ast.dump(kw["axis"]) == dump("1"):
+                v, tv = self.expr(e.args[0], cur)
+                if tv != "vec":
+                    fail(e, "np.expand_dims(v, axis=1)")
+                return f"(np_col_mat {v})", "mat"
+            if fn == "squeeze" and len(e.args) == 1 and not kw:
+                m, tm = self.expr(e.args[0], cur)
+                if tm != "mat":
+                    fail(e, "np.squeeze")
+                self.guard(f"(np_squeeze_col_ok {m})")
+                return f"(np_squeeze_col {m})", "vec"
             if fn == "zeros" and not e.args and set(kw) == {"shape"}:
                 t, ty = self.expr(kw["shape"], cur)
                 if ty != "int":
@@ -1233,6 +1277,9 @@ class IntTr:
                         elif isinstance(n, ast.Subscript) and isinstance(n.value, ast.Name):
                             if n.value.id not in out:
                                 out.append(n.value.id)
+                        elif isinstance(n, ast.Subscript) and "dyn" in self.options and self.store_root(n) is not None:
+                            if self.store_root(n) not in out:
+                                out.append(self.store_root(n))
             elif isinstance(s, ast.Expr) and self.mutator(s) is not None:
                 if self.mutator(s)[0] not in out:
                     out.append(self.mutator(s)[0])
@@ -1250,7 +1297,17 @@ class IntTr:
                 fail(s, "loop / block statement nested inside a branch or loop body")
         return out
 
-    MUTATORS = {("kt", "redistribute"): ("kt_redistribute", "kt_redistribute_ok", ["int"])}
+    @staticmethod
+    def store_root(n):
+        """X for a store target of the form X.field[...]... (a field of a record variable is updated)"""
+        while isinstance(n, ast.Subscript):
+            n = n.value
+        if isinstance(n, ast.Attribute) and isinstance(n.value, ast.Name):
+            return n.value.id
+        return None
+
+    MUTATORS = {("kt", "redistribute"): ("kt_redistribute", "kt_redistribute_ok", ["int"]),
+                ("matlist", "append"): ("list_append", None, ["mat"])}
 
     @staticmethod
     def mutator(s):
@@ -1272,6 +1329,13 @@ class IntTr:
                 return
             if isinstance(n, ast.Name) and isinstance(n.ctx, ast.Load):
                 out.add(n.id)
+            if isinstance(n, ast.For) and "dyn" in self.options:
+                # the loop's own targets are bound by the loop: reads of them inside the body are not reads of an outer name
+                walk(n.iter)
+                inner = self.reads(n.body + n.orelse)
+                tg = {x.id for x in ast.walk(n.target) if isinstance(x, ast.Name)}
+                out.update(inner - tg)
+                return
             for c in ast.iter_child_nodes(n):
                 walk(c)
         for st in stmts:
@@ -1303,6 +1367,8 @@ class IntTr:
             return text
         if (ty, want) in (("pylist", "vec"), ("vec", "pylist")):
             return text
+        if ty == "nil" and want == "matlist":
+            return "(@nil mat)"
         if (ty, want) in UNION_INJ:
             return f"({UNION_INJ[(ty, want)]} {text})"
         fail(node, f"cannot coerce {ty} to {want}")
@@ -1489,7 +1555,8 @@ class IntTr:
             for a, want in zip(args, ptys):
                 t, ty = self.expr(a, cur)
                 ats.append(self.coerce(t, ty, want, s))
-            self.guard(f"({okfn} {cur[name][0]} {' '.join(ats)})")
+            if okfn:
+                self.guard(f"({okfn} {cur[name][0]} {' '.join(ats)})")
             pre, cur2 = self.bind_name(name, f"({fn} {cur[name][0]} {' '.join(ats)})", cur[name][1], cur, s)
             return pre + self.block(rest, cur2, tail, live)
         if isinstance(s, ast.Assert) and "dyn" in self.options and self.narrow(s.test, cur):
@@ -1551,6 +1618,39 @@ class IntTr:
                 p, cur = self.bind_name(tg.id, t, ty, cur, s)
                 pre += p
             return pre + self.block(rest, cur, tail, live)
+        if "dyn" in self.options and isinstance(tgt, ast.Subscript) and len(s.targets) == 1 and self.store_root(tgt) in cur \
+                and cur[self.store_root(tgt)][1] == "kt" and not isinstance(tgt.value, ast.Name):
+            name = self.store_root(tgt)
+            k = cur[name][0]
+            txt = None
+            # X.weights[r] = v
+            if isinstance(tgt.value, ast.Attribute) and tgt.value.attr == "weights" and not isinstance(tgt.slice, (ast.Slice, ast.Tuple)):
+                r, tr = self.expr(tgt.slice, cur)
+                v, tv = self.expr(s.value, cur)
+                if (tr, tv) != ("int", "int"):
+                    fail(s, "weight store")
+                self.guard(f"(idx_ok (kt_weights {k}) {r})")
+                txt = f"(kt_set_weight {k} {r} {v})"
+            # X.factor_matrices[m][:, [r]] = X.factor_matrices[m][:, [r]] * c     (one column scaled in place)
+            elif isinstance(tgt.value, ast.Subscript) and isinstance(tgt.value.value, ast.Attribute) \
+                    and tgt.value.value.attr == "factor_matrices" and isinstance(tgt.slice, ast.Tuple) and len(tgt.slice.elts) == 2 \
+                    and isinstance(tgt.slice.elts[0], ast.Slice) and tgt.slice.elts[0].lower is None and tgt.slice.elts[0].upper is None \
+                    and tgt.slice.elts[0].step is None and isinstance(tgt.slice.elts[1], ast.List) and len(tgt.slice.elts[1].elts) == 1 \
+                    and isinstance(s.value, ast.BinOp) and isinstance(s.value.op, ast.Mult):
+                load = ast.parse(ast.unparse(tgt), mode="eval").body
+                if ast.dump(s.value.left) != ast.dump(load):
+                    fail(s, "column scaling template: the factor column must be scaled in place")
+                m, tm = self.expr(tgt.value.slice, cur)
+                r, tr = self.expr(tgt.slice.elts[1].elts[0], cur)
+                c, tc = self.expr(s.value.right, cur)
+                if (tm, tr, tc) != ("int", "int", "int"):
+                    fail(s, "column scaling template: types")
+                self.guard(f"(kt_scale_col_ok {k} {m} {r})")
+                txt = f"(kt_scale_col {k} {m} {r} {c})"
+            if txt is None:
+                fail(s, "store into a field of a ktensor")
+            pre, cur2 = self.bind_name(name, txt, "kt", cur, s)
+            return pre + self.block(rest, cur2, tail, live)
         if "dyn" in self.options and isinstance(tgt, ast.Subscript) and isinstance(tgt.value, ast.Name):
             ci = self.col_index(tgt.slice)
             a, ta = self.expr(tgt.value, cur)
@@ -1563,7 +1663,7 @@ class IntTr:
                     txt = f"(np_setcol {a} {i} {v})"
             elif not isinstance(tgt.slice, (ast.Slice, ast.Tuple)):
                 i, ti = self.expr(tgt.slice, cur)
-                if (ta, ti, tv) == ("vec", "int", "int"):
+                if (ta, ti, tv) in (("vec", "int", "int"), ("matlist", "int", "mat")):
                     self.guard(f"(idx_ok {a} {i})")
                     txt = f"(np_set {a} {i} {v})"
             if txt is not None:
@@ -1890,6 +1990,18 @@ def param_names(f):
     return [a.arg for a in f.args.args] + (["*"] if f.args.vararg else []) + [a.arg for a in f.args.kwonlyargs]
 
 
+def param_defaults(f):
+    """defaults of positional and keyword-only parameters, as written in the signature"""
+    out = {}
+    pos = f.args.args
+    for a, d in zip(pos[len(pos) - len(f.args.defaults):], f.args.defaults):
+        out[a.arg] = d
+    for a, d in zip(f.args.kwonlyargs, f.args.kw_defaults):
+        if d is not None:
+            out[a.arg] = d
+    return out
+
+
 def gen_utils(src_root, envpath, key="utils", title="pyttb/pyttb_utils.py", imports="Np.NpZ", extern=()):
     env = json.load(open(envpath))
     out = [f"(* GENERATED by tools/pyx2v.py from {title} — do not edit *)",
@@ -1901,6 +2013,7 @@ def gen_utils(src_root, envpath, key="utils", title="pyttb/pyttb_utils.py", impo
     info = {}
     emitted = []
     known_names = {}
+    known_defaults = {}
     for k2 in extern:        # functions translated into an imported unit: callable from this one
         for unit in env[k2]:
             path = os.path.join(src_root, unit["file"])
@@ -1910,6 +2023,7 @@ def gen_utils(src_root, envpath, key="utils", title="pyttb/pyttb_utils.py", impo
                 raise Unsupported(f"{unit['file']}: function {unit['name']} not found")
             known[unit["name"]] = ([unit["types"][a] for a in IntTr.params(trees[path][unit["name"]])], unit["returns"])
             known_names[unit["name"]] = param_names(trees[path][unit["name"]])
+            known_defaults[unit["name"]] = param_defaults(trees[path][unit["name"]])
     for unit in env[key]:
         path = os.path.join(src_root, unit["file"])
         if path not in trees:
@@ -1929,11 +2043,13 @@ def gen_utils(src_root, envpath, key="utils", title="pyttb/pyttb_utils.py", impo
                 out.append(f"Inductive {en} := " + " | ".join(info[path][0][en]) + ".\n")
         tr = IntTr(unit, known, {en: info[path][0][en] for en in unit.get("enums", [])}, info[path][1])
         tr.known_names = known_names
+        tr.known_defaults = known_defaults
         # defaults: only the ones declared in the env are accepted (parameter fixed to its default is NOT done:
         # every parameter stays a parameter of the Gallina function)
         out.append(tr.func(f, unit))
         known[name] = ([unit["types"][a] for a in IntTr.params(f)], unit["returns"])
         known_names[name] = param_names(f)
+        known_defaults[name] = param_defaults(f)
         names.append(name)
     return "\n".join(out) + "\n", names
 
@@ -1968,6 +2084,10 @@ def main():
                                                       "Np.NpZ Np.NpZ2 Np.NpZ3 Np.NpZ3b")),
                      ("GenKernels3", lambda: gen_utils(src, envp, "kernels3", "pyttb/tensor.py (mttv_left, mttv_mid)",
                                                        "Np.NpZ Np.NpZ2 Np.NpZ3 Np.NpZ3c Gen.GenKernels", extern=("kernels",))),
+                     ("GenMethods2", lambda: gen_utils(src, envp, "methods2", "pyttb/sptensor.py (sptensor.allsubs; `self` is a record parameter)",
+                                                       "Np.NpZ Np.NpZ2 Np.NpZ3 Np.NpZ3c Np.NpZ3d Gen.GenKernels", extern=("kernels",))),
+                     ("GenMethods3", lambda: gen_utils(src, envp, "methods3", "pyttb/ktensor.py (ktensor.redistribute; `self` is a record "
+                                                       "parameter that the method updates and returns)", "Np.NpZ Np.NpZ2 Np.NpZ3 Np.NpZ3e")),
                      ("GenMethods", lambda: gen_utils(src, envp, "methods", "simple methods / properties of pyttb classes "
                                                       "(`self` is a parameter: a record of the fields the method reads)",
                                                       "Np.NpZ Np.NpZ2 Np.NpZ3"))):
